@@ -232,8 +232,8 @@ Definition keep_orec (q : query) (o : orec) : list orec :=
       end
   end.
 
-Definition stdin_name : bytes := bs "-".
-Definition stdin_label : bytes := bs "-#0".    (* files.go: the implicit stdin input is unlabelled and counted 0 times *)
+(* the implicit stdin input of Files{AllowStdin} with no paths: Model/Files.v [files_run_stdin] (label "-" since
+   fix 14f982c; the code before it said "-#0", which this file used to copy - see C02_stdin_label_old_refuted) *)
 
 Definition is_err (o : orec) : bool := match o with OErr _ _ _ => true | _ => false end.
 
@@ -254,8 +254,8 @@ Definition corr_ok (c : case) : bool :=
         if stdin then
           match fs with
           | (_, content) :: _ =>
-              fst (fst (read_file go_is_space go_is_lower go_is_upper (orc_atoi orc) (orc_pf orc)
-                          rs_empty stdin_name [(key_file, stdin_label)] content))
+              fst (fst (files_run_stdin go_is_space go_is_lower go_is_upper (orc_atoi orc) (orc_pf orc)
+                          [] true [] content))
           | [] => []
           end
         else fst (fst (files_run go_is_space go_is_lower go_is_upper (orc_atoi orc) (orc_pf orc) fs true paths)) in
